@@ -173,6 +173,14 @@ class C02Truth(Monitor):
                 self._check_ind(d, b, f"{cname} best_individual")
         tb = tree.best_individual
         self._check_ind(tree.root, tb, "tree best_individual")
+        if tree.leaves:
+            self._check_ind(tree.root, tree.best_leaf_individual, "tree best_leaf_individual")
+            for ind in tree.r5s_solutions:
+                self._check_ind(tree.root, ind, "tree r5s_solutions")
+        for d in self.all_demes(tree):
+            bc = d.best_current_individual
+            if bc is not None:
+                self._check_ind(d, bc, f"{type(d).__name__} best_current_individual")
 
     def on_tree_ready(self, tree):
         self._scan(tree)
